@@ -25,11 +25,16 @@ def pty_sessions(ctx):
         rj = os.path.join(out, "replay_sessions.json")
         json.dump({"sessions": sess}, open(rj, "w"))
         cmd += ["--replay", rj]
-    rc, text = ctx["sh"](cmd, cwd=ctx["root"], timeout=1500)
-    violations = []
-    notes = [text.strip().split("\n")[0][:300]]
-    meta_path = os.path.join(out, "sessions.json")
     cur = os.path.join(out, "current_session.json")
+    try:
+        rc, text = ctx["sh"](cmd, cwd=ctx["root"], timeout=900)
+    except Exception as e:  # timeout: the terminal object hung (poll never returned, dispose blocked, ...)
+        case = json.load(open(cur)) if os.path.exists(cur) else {}
+        return {"violations": [{"kind": "failing-input", "what": "pty session did not finish: %s" % str(e)[:200],
+                                "case": {"pty_session": case}}], "notes": ["pty16 tool timed out"]}
+    violations = []
+    notes = [(text.strip().split("\n") or [""])[-1][:300]]
+    meta_path = os.path.join(out, "sessions.json")
     if not os.path.exists(meta_path) and os.path.exists(cur):
         # the process died (abort inside the crate) while this session ran: the session is the witness
         return {"violations": [{"kind": "failing-input", "what": "process aborted while running this pty session (rc=%d): %s" % (rc, text[-300:]),
